@@ -232,3 +232,24 @@ PROPS["C13"] = dict(
     level_note="Bounded history length; HS256 keys only (the hidden state the property is about lives in the builder/checker objects, not in the providers).",
     design_ref="DESIGN.md section 7, C13",
 )
+
+
+PROPS["C10"] = dict(
+    level="model_checking", exhaustive=True,
+    stages=lambda tier, seed: [mc("seq", "MC_C10", "MC_C10_%s.cfg" % tier)],
+    rule="from MC_C10: all sequences of 3 builder configuration calls over an alphabet of 17 (quick) / 33 (thorough) "
+         "calls - header set (typ, user-set alg, kid) and delete, claim set (same-named iat/exp/nbf, sub, bool) and "
+         "delete, enable_iat 0/1, time_offset for exp/nbf in {-5, 0, 1, 60, 3600} and for an invalid claim, setkey "
+         "(HS256 oct, RS256 private, RS256 public-only, ES256, none, remove), setcb with two mutating programs and "
+         "removal, clock changes - with a generate after every call, plus all pairs over the full alphabet. Every "
+         "token is decoded by the driver (segments, canonical base64url, header and payload objects, signature "
+         "checked against every loaded key) and the builder's header and claim objects are read back after each "
+         "generate. distinct = distinct sequences.",
+    assumptions=ASSUME_COMMON,
+    level_text="Bounded-exhaustive over builder configuration histories: TLC computes what each generate must return "
+               "(header with alg forced and typ defaulted, claims with iat/nbf/exp overriding, callback edits visible "
+               "in that token only) and every produced token, decoded independently, must equal it; the builder must "
+               "read back unchanged.",
+    level_note="Sequence length 3 with a generate after each step; header/claim values from a small universe (C15 covers the value space).",
+    design_ref="DESIGN.md section 7, C10",
+)
